@@ -234,8 +234,8 @@ def run(ctx: Context) -> None:
             for n in ast.walk(w.node):
                 if isinstance(n, ast.With) and any(isinstance(i.context_expr, ast.Call) and callee(ctx, w, i.context_expr) == f"{CU}.nice_console_errors" for i in n.items):
                     inner = [c for s in n.body for c in ast.walk(s) if isinstance(c, ast.Call) and norm_text(c) == 'fn(options)']
-                    tests = [(norm_text(st.test), inb) for st, inb in enclosing_ifs(w, n)]
-                    ok_wrap = bool(inner) and ('handle_errors', True) in tests
+                    from .common import facts as _facts203
+                    ok_wrap = bool(inner) and ('handle_errors', True) in _facts203(ctx, w, n, expand=False)
         ctx.check('R20.3', ok_wrap, "the command body runs inside nice_console_errors when error handling is on", ent, ent.node,
                   construct='with nice_console_errors(): fn(options)')
         main = ctx.func('emsarray.cli.main')
